@@ -31,4 +31,35 @@ CHECKS = {
         floors={"interleaved=true": 0.2, "concurrent=true": 0.1, "msgs>=11": 0.05, "kind=client": 0.1, "kind=server": 0.1, "kind=bidi": 0.2},
         assumptions=COMMON_ASSUMPTIONS,
     ),
+    "C03": dict(
+        level="exploration",
+        rule=("three rapid sub-checks. main: 1..4 concurrent RPCs of all four kinds against a goat server whose handlers return nil / status errors (codes 0..16 and 99, empty/ASCII/Unicode/4KiB messages, 0..3 details incl. nested Any) / wrapped status / plain / context errors / a non-nil error whose GRPCStatus is OK, "
+              "before any message, mid-stream or after the last message, with trailers; oracle model.Status: success iff handler returned nil, code+message+details equal (proto.Equal), wrapped keeps code/details and contains the message, non-status errors are non-OK and carry the text. "
+              "foreign: scripted peer instead of a goat server, 15 reply shapes (explicit OK status+body, status without trailer metadata, status+body, reset alone / without trailer / before / after the trailer, trailer without status...). "
+              "race: the server's trailer Write is parked while the caller sends 1..4 more bodies, then released (reset vs trailer). "
+              "Non-trivial = non-OK outcome with >=1 detail, or mid-stream failure position, or any foreign/race case; distinct = canonical case hash."),
+        jobs=[dict(test="TestC03", quick=1600, thorough=40000), dict(test="TestC03Foreign", quick=800, thorough=10000, shards=4), dict(test="TestC03Race", quick=400, thorough=5000, shards=4)],
+        floors={"pos=mid-stream": 0.02, "race=armed": 0.05},
+        assumptions=COMMON_ASSUMPTIONS,
+    ),
+    "C04": dict(
+        level="exploration",
+        rule=("rapid-generated RPCs of all four kinds with request metadata (0..6 keys from the gRPC alphabet in random letter case, 1..4 values, keys reused across sets; text values printable ASCII; -bin values empty/NUL/0xFF/random up to 1KiB), "
+              "handlers calling SetHeader 0..3 times, optional SendHeader, headers leaving with first message or with the status, late SetHeader, SetTrailer 0..3 times, grpc.SetHeader/SendHeader/SetTrailer in unary handlers, trailers with error returns. "
+              "Oracle model.MD (independent join/lower-case/base64 implementation): handler's incoming metadata, Header(), Trailer(), unary InHeader (recording stats handler) and the tap (decoded by the model) all equal the model; response metadata only on the first response envelope. "
+              "Non-trivial = a -bin value with NUL or non-UTF-8 bytes, or a key with >=2 values, or >=2 set calls; distinct = canonical case hash."),
+        jobs=[dict(test="TestC04", quick=1600, thorough=50000)],
+        floors={"md-nontrivial": 0.3, "hdr-via=sendheader": 0.03, "hdr-via=first-message": 0.05, "hdr-via=with-trailer": 0.05, "unary": 0.1},
+        assumptions=COMMON_ASSUMPTIONS,
+    ),
+    "C06": dict(
+        level="exploration",
+        rule=("the protocol automaton (kit.CheckWire) is the sole oracle over the wire tap of the C01-C04 generator families (plus the C03 reset-race scenario and, in the cancel/abandon jobs, the C07 and C11 scenarios): "
+              "per (connection, id, direction) projection: unary = one header+body request and one header+trailer+(body|non-OK status) response; stream c->s = OPEN BODY* TRAILER? RESET? with nothing after the reset; "
+              "s->c = HEADER? BODY* TRAILER(status) then only resets answering a late body, trailer present iff the handler returned on a live un-reset stream, no reset before that trailer; constant method/source/destination, swapped in responses; "
+              "response metadata only on the first response envelope; server emits only ids it has read. Non-trivial = a projection with >=4 envelopes or a reset, or an early handler return; distinct = canonical case hash."),
+        jobs=[dict(test="TestC06", quick=2400, thorough=60000), dict(test="TestC06Race", quick=300, thorough=3000, shards=4)],
+        floors={"family=c01": 0.1, "family=c02": 0.2, "family=c03": 0.1, "family=c04": 0.1, "early_return=true": 0.1},
+        assumptions=COMMON_ASSUMPTIONS,
+    ),
 }
